@@ -185,7 +185,8 @@ def ext(arg1, arg2, arg3, arg4):
 @sbuild.parse
 def mul(arg1, arg2, arg3):
     """Multiplies @arg2 by $arg3 and stores the result in @arg1."""
-    arg1 = 'imul'(arg2, arg3)
+    # The low word of the product does not depend on the signedness
+    arg1 = arg2 * arg3
 
 @sbuild.parse
 def sltu(arg1, arg2, arg3):
